@@ -1624,3 +1624,40 @@ pub fn shrink(set: &ModuleSet, pred: &dyn Fn(&ModuleSet) -> bool) -> ModuleSet {
     }
     cur
 }
+
+/// Module pairs aimed at the order-sensitive import bookkeeping of the linker: module B imports only *values*
+/// whose governing types are defined in module A (the linker then adds the associated types to B's imports).
+pub fn assoc_import_set(rng: &mut Rng) -> ModuleSet {
+    let k = 2 + rng.below(4);
+    let mut a_assigns = vec![];
+    let mut names = vec![];
+    for i in 0..k {
+        let tn = format!("Tq{}", 10 + i);
+        let vn = format!("vq{}", 30 + i);
+        let ty = Ty { constraint: if rng.chance(1, 2) { Some(Constraint::Range { lo: Some(0), hi: Some(100 + i as i128), ext: false }) } else { None }, ..Ty::plain(TyKind::Integer { named: vec![] }) };
+        a_assigns.push(Assign::Type { name: tn.clone(), ty });
+        a_assigns.push(Assign::Value { name: vn.clone(), ty: Ty::plain(TyKind::Ref { module: None, name: tn.clone() }), val: Val::Int(1 + i as i128) });
+        names.push((tn, vn));
+    }
+    rng.shuffle(&mut a_assigns);
+    let mut comps = vec![];
+    for (i, (_, vn)) in names.iter().enumerate() {
+        comps.push(Comp { name: format!("fq{}", 50 + i), ty: Ty::plain(TyKind::Integer { named: vec![] }), opt: Optionality::Default(Val::Ident(vn.clone())) });
+    }
+    let mut syms: Vec<String> = names.iter().map(|n| n.1.clone()).collect();
+    if rng.chance(1, 3) {
+        syms.push(names[0].0.clone());
+    }
+    rng.shuffle(&mut syms);
+    let b = MModule {
+        name: "Mq2".into(),
+        tagging: *rng.pick(&Tagging::all()),
+        ext_implied: false,
+        imports: vec![("Mq1".into(), syms)],
+        assigns: vec![Assign::Type { name: "Tq90".into(), ty: Ty::plain(TyKind::Sequence(Struct { root: comps, ext: None, root2: vec![] })) }],
+        oid: None,
+    };
+    let a = MModule { name: "Mq1".into(), tagging: Tagging::Automatic, ext_implied: false, imports: vec![], assigns: a_assigns, oid: if rng.chance(1, 2) { Some(1) } else { None } };
+    ModuleSet { modules: vec![a, b] }
+}
+
